@@ -16,10 +16,10 @@ package htlcswitch
 import (
 	"context"
 	"crypto/sha256"
-	"encoding/binary"
 	"fmt"
 	"os"
 	"path/filepath"
+	"reflect"
 	"runtime"
 	"sort"
 	"strings"
@@ -27,10 +27,10 @@ import (
 	"testing"
 	"testing/synctest"
 	"time"
+	"unsafe"
 
 	"github.com/btcsuite/btcd/btcutil/v2"
 	"github.com/lightningnetwork/lnd/channeldb"
-	"github.com/lightningnetwork/lnd/htlcswitch/hop"
 	"github.com/lightningnetwork/lnd/invoices"
 	"github.com/lightningnetwork/lnd/lntypes"
 	"github.com/lightningnetwork/lnd/lnwallet"
@@ -69,6 +69,9 @@ type c08Scn struct {
 	Freeze bool `json:"freeze,omitempty"`
 	// OnlyFreeze restricts schedule deviations to fz/un.
 	OnlyFreeze bool `json:"only_freeze,omitempty"`
+	// BobBCSat: Bob's balance on the Bob-Carol channel in satoshi (0 = 5 BTC like
+	// every other channel end). A small value makes Bob unable to forward A->C.
+	BobBCSat int64 `json:"bob_bc_sat,omitempty"`
 	// FaultKinds / FreezeWires restrict the fault events / the wires that may be
 	// frozen (empty = all). Used to shard one large space over several workers.
 	FaultKinds  []string `json:"fault_kinds,omitempty"`
@@ -168,6 +171,9 @@ const (
 	c08WCB = 3 // Carol -> Bob   (channel BC)
 
 	c08Tick = 50 * time.Millisecond // == testBatchTimeout of the fixture
+	// c08Flush: virtual time the explorer lets pass after every event so that the
+	// nanosecond delays of ownRace elapse within the event's own step.
+	c08Flush = time.Microsecond
 )
 
 var c08WireName = [4]string{"A>B", "B>A", "B>C", "C>B"}
@@ -193,10 +199,10 @@ type c08PayState struct {
 	// results delivered to the sender (exactly one expected)
 	results []string
 	// forwarder-side bookkeeping (from the explorer's own wire log)
-	bobSettledIn   bool // Bob sent update_fulfill on the incoming channel
-	bobFailedIn    bool // Bob sent update_fail on the incoming channel
-	preimageAtBob  bool // a fulfill carrying the preimage was delivered to Bob on the outgoing channel
-	inID, outID    int64
+	bobSettledIn    bool // Bob sent update_fulfill on the incoming channel
+	bobFailedIn     bool // Bob sent update_fail on the incoming channel
+	preimageAtBob   bool // a fulfill carrying the preimage was delivered to Bob on the outgoing channel
+	inID, outID     int64
 	inSeen, outSeen bool
 }
 
@@ -212,6 +218,7 @@ type c08World struct {
 	chans    [4]*lnwallet.LightningChannel
 	restore  [4]func() (*lnwallet.LightningChannel, error)
 	dbs      [4]*channeldb.DB
+	pools    []*lnwallet.SigPool // the fixture's signature pools (never stopped by it)
 	chanIDs  [2]lnwire.ChannelID // AB, BC
 	startBal [4]lnwire.MilliSatoshi
 
@@ -228,11 +235,11 @@ type c08World struct {
 	hist       []string
 	t0         time.Time
 
-	info  func(string)
+	info      func(string)
 	lastParts []string
-	viols []c08Viol
-	obs   []string // observation after every event
-	dead  string   // harness-level failure (fixture Fatal, panic)
+	viols     []c08Viol
+	obs       []string // observation after every event
+	dead      string   // harness-level failure (fixture Fatal, panic)
 }
 
 type c08Viol struct {
@@ -282,7 +289,11 @@ func newC08World(t *testing.T, scn c08Scn, dir string, info func(string)) (w *c0
 		if cerr != nil {
 			return
 		}
-		b2, c, cerr = createTestChannel(t, bobPrivKey, carolPrivKey, chanAmt, chanAmt, 0, 0, scidBC)
+		bobBC := btcutil.Amount(chanAmt)
+		if scn.BobBCSat > 0 {
+			bobBC = btcutil.Amount(scn.BobBCSat)
+		}
+		b2, c, cerr = createTestChannel(t, bobPrivKey, carolPrivKey, bobBC, chanAmt, 0, 0, scidBC)
 	}()
 	<-done
 	if cerr != nil {
@@ -292,6 +303,9 @@ func newC08World(t *testing.T, scn c08Scn, dir string, info func(string)) (w *c0
 		w.chans[i] = tc.channel
 		w.restore[i] = tc.restore
 		w.dbs[i] = testChannelStateDB(t, tc.channel).GetParentDB()
+		if p := c08PoolOf(tc.channel); p != nil {
+			w.pools = append(w.pools, p)
+		}
 	}
 	w.chanIDs[0] = lnwire.NewChanIDFromOutPoint(w.chans[0].ChannelPoint())
 	w.chanIDs[1] = lnwire.NewChanIDFromOutPoint(w.chans[2].ChannelPoint())
@@ -309,6 +323,9 @@ func newC08World(t *testing.T, scn c08Scn, dir string, info func(string)) (w *c0
 	for i := range w.servers {
 		w.intercept(i)
 	}
+	for e := range w.links {
+		w.ownRace(e)
+	}
 	for _, s := range w.servers {
 		if err := s.Start(); err != nil {
 			return w, err
@@ -321,7 +338,7 @@ func newC08World(t *testing.T, scn c08Scn, dir string, info func(string)) (w *c0
 		for wi := 0; wi < 4; wi++ {
 			if len(w.wires[wi]) > 0 {
 				w.deliver(wi)
-				synctest.Wait()
+				c08Quiesce()
 			}
 		}
 	}
@@ -614,8 +631,9 @@ func (w *c08World) checkTwinGone(p *c08PayState, when string) {
 		ends = []int{1, 0}
 	}
 	for _, e := range ends {
-		for name, hs := range w.commitHtlcs(e) {
-			for _, h := range hs {
+		cm := w.commitHtlcsAll(e)
+		for _, name := range []string{"local", "remote", "pending"} {
+			for _, h := range cm[name] {
 				if h.RHash == [32]byte(p.hash) {
 					w.violate(fmt.Sprintf("failback/outgoing-still-committed/dir=%s/kind=%s/where=%s.%s", p.Dir, p.Kind, c08EndName[e], name),
 						fmt.Sprintf("payment %d: the incoming HTLC was failed back by Bob but the outgoing HTLC is present in %s's %s commitment (%s)", p.idx, c08EndName[e], name, when))
@@ -634,6 +652,16 @@ func (w *c08World) commitHtlcs(e int) map[string][]channeldb.HTLC {
 	out := map[string][]channeldb.HTLC{
 		"local":  append([]channeldb.HTLC{}, st.LocalCommitment.Htlcs...),
 		"remote": append([]channeldb.HTLC{}, st.RemoteCommitment.Htlcs...),
+	}
+	return out
+}
+
+// commitHtlcsAll additionally includes a signed but not yet revoked next remote
+// commitment ("pending"): the peer holds a valid signature for it.
+func (w *c08World) commitHtlcsAll(e int) map[string][]channeldb.HTLC {
+	out := w.commitHtlcs(e)
+	if tip := w.pendingRemote(e); tip != nil {
+		out["pending"] = append([]channeldb.HTLC{}, tip.Htlcs...)
 	}
 	return out
 }
@@ -781,12 +809,53 @@ func c08ErrClass(err error) string {
 	return s
 }
 
+// ownRace resolves the one lnd-internal scheduler race whose outcome is visible at
+// quiescent points. When a revocation locks in adds *and* settles/fails at once, the link
+// first hands the adds to the switch synchronously (processRemoteAdds) and then the
+// settles/fails from a freshly spawned goroutine (`go l.forwardBatch`,
+// processRemoteSettleFails). If both are destined for the same other link they land in
+// that link's mailbox, whose courier prefers responses over adds: whether the add is
+// consumed before the response arrives is the Go scheduler's choice (observed: the
+// response overtakes the add in ~90 % of replays under load, the add stays first in the
+// rest), and it changes the order of Bob's messages on the other channel. Both orders are
+// legal executions. The fixture routes both batches through the cfg.ForwardPackets closure
+// it installs itself; wrapping that closure with a few nanoseconds of *virtual* delay for
+// settle/fail batches makes every such add reach (and be consumed by) the other link
+// before the response is handed over. This pins the order that the synchronous call
+// sequence in the link suggests; the opposite order cannot be pinned from this seam and is
+// not explored. No lnd source is touched and every explored execution is one the
+// unmodified code can produce.
+func (w *c08World) ownRace(e int) {
+	if e != 1 && e != 2 {
+		return // only the forwarder forwards
+	}
+	l := w.links[e]
+	orig := l.cfg.ForwardPackets
+	d := time.Duration(10*e) * time.Nanosecond
+	l.cfg.ForwardPackets = func(q <-chan struct{}, replay bool, pkts ...*htlcPacket) error {
+		if len(pkts) > 0 {
+			if _, isAdd := pkts[0].htlc.(*lnwire.UpdateAddHTLC); !isAdd {
+				time.Sleep(d)
+			}
+		}
+		return orig(q, replay, pkts...)
+	}
+}
+
+// quiesce: wait until every goroutine is durably blocked, let the ownRace delays
+// elapse, wait again.
+func c08Quiesce() {
+	synctest.Wait()
+	time.Sleep(c08Flush)
+	synctest.Wait()
+}
+
 // align sleeps until the next explorer instant (t0 + tick/2 + k*tick).
 func (w *c08World) align() {
 	el := time.Since(w.t0) - c08Tick/2
 	rem := c08Tick - el%c08Tick
 	time.Sleep(rem)
-	synctest.Wait()
+	c08Quiesce()
 }
 
 // relink stops the link of channel end e (if it is still registered) and creates a
@@ -817,6 +886,7 @@ func (w *c08World) startLink(e int) error {
 		return fmt.Errorf("createChannelLink %s: %v %v", c08EndName[e], err, w.tb.failures())
 	}
 	w.links[e] = l.(*channelLink)
+	w.ownRace(e)
 	return nil
 }
 
@@ -900,13 +970,11 @@ func (w *c08World) Enabled() []string {
 	w.mu.Lock()
 	type hd struct{ wi, step int }
 	var heads []hd
-	frozenLoad := 0
 	for wi := range w.wires {
 		if len(w.wires[wi]) == 0 {
 			continue
 		}
 		if wi == w.frozen {
-			frozenLoad = len(w.wires[wi])
 			continue
 		}
 		heads = append(heads, hd{wi, w.wires[wi][0].step})
@@ -969,7 +1037,6 @@ func (w *c08World) Enabled() []string {
 	default:
 		return nil // terminal
 	}
-	_ = frozenLoad
 	if w.scn.Freeze && canDev && w.frozen < 0 {
 		w.mu.Lock()
 		for wi := range w.wires {
@@ -1020,6 +1087,24 @@ func (w *c08World) Do(a string) (err error) {
 			w.dead = "panic"
 		}
 	}()
+	if a == "L" {
+		// the terminal drain's long sleep (past the switch's 10/15 s tickers); recorded
+		// in the history so that a replay reproduces the same virtual time line
+		if w.pending() != 0 {
+			return fmt.Errorf("event L with messages in flight")
+		}
+		w.events++
+		w.hist = append(w.hist, a)
+		time.Sleep(20 * time.Second)
+		c08Quiesce()
+		w.scanNew()
+		w.stepOracle()
+		w.obs = append(w.obs, w.observe())
+		if w.info != nil {
+			w.logf("%3d %-7s @%-6v %s", w.events, a, time.Since(w.t0), w.wireString())
+		}
+		return nil
+	}
 	// classify the event against the budgets before performing it
 	en := w.Enabled()
 	allowed := false
@@ -1123,7 +1208,7 @@ func (w *c08World) Do(a string) (err error) {
 	default:
 		return fmt.Errorf("unknown event %s", a)
 	}
-	synctest.Wait()
+	c08Quiesce()
 	w.scanNew()
 	w.stepOracle()
 	o := w.observe()
@@ -1249,7 +1334,9 @@ func (w *c08World) observe() string {
 func (w *c08World) Key() string {
 	var b strings.Builder
 	b.WriteString(w.observe())
-	fmt.Fprintf(&b, "|f%d d%d z%d i%d", w.faultsUsed, w.devUsed, w.frozen, w.idle)
+	// the kinds of the faults so far are part of the key: a restarted switch (fresh
+	// mailboxes, circuit map re-read from disk) must never be merged with a mere link flap
+	fmt.Fprintf(&b, "|%s d%d z%d i%d", w.class(), w.devUsed, w.frozen, w.idle)
 	for _, p := range w.pays {
 		fmt.Fprintf(&b, " %v%v%v%v%v", p.launched, p.resolved, p.bobSettledIn, p.bobFailedIn, p.preimageAtBob)
 		if !p.launched {
@@ -1265,6 +1352,13 @@ func (w *c08World) Key() string {
 		}
 		fmt.Fprintf(&b, " fp%d:", e)
 		for _, p := range pk {
+			// Completed packages are garbage: whether the link's background
+			// garbage collector (fwdPkgGarbager, started with the link and then every
+			// 15 s) has already deleted them is the scheduler's choice and has no
+			// influence on what a restart re-forwards.
+			if p.State == channeldb.FwdStateCompleted {
+				continue
+			}
 			fmt.Fprintf(&b, "%d.%d.%d.%d.%v.%v,", p.Height, p.State, len(p.Adds), len(p.SettleFails), p.AckFilter.IsFull(), p.SettleFailFilter.IsFull())
 		}
 	}
@@ -1298,9 +1392,9 @@ func (w *c08World) Terminal() {
 			continue
 		}
 		before := w.obsCore()
-		time.Sleep(20 * time.Second)
-		synctest.Wait()
-		w.scanNew()
+		if err := w.Do("L"); err != nil {
+			break
+		}
 		if w.pending() == 0 && w.obsCore() == before {
 			stable++
 		} else {
@@ -1321,7 +1415,7 @@ func (w *c08World) Terminal() {
 func (w *c08World) terminalOracle() {
 	cls := w.class()
 	var (
-		bobGain              int64
+		bobGain                int64
 		aliceDelta, carolDelta int64
 	)
 	for _, p := range w.pays {
@@ -1465,6 +1559,9 @@ func (w *c08World) Close() {
 			}
 		}
 		w.tb.runCleanups()
+		for _, p := range w.pools {
+			_ = p.Stop()
+		}
 		for _, db := range w.dbs {
 			if db != nil {
 				_ = db.Close()
@@ -1476,5 +1573,21 @@ func (w *c08World) Close() {
 	_ = os.RemoveAll(w.tb.dir)
 }
 
-var _ = binary.BigEndian
-var _ = hop.Exit
+// c08PoolOf digs the signature pool out of a channel created by the fixture, which
+// starts runtime.NumCPU() workers per channel and never stops them (64 leaked
+// goroutines per network). Pure hygiene (memory of long-running workers): if the field
+// is ever renamed this returns nil and the pools simply leak as they do in the repo's tests.
+func c08PoolOf(ch *lnwallet.LightningChannel) (p *lnwallet.SigPool) {
+	defer func() {
+		if recover() != nil {
+			p = nil
+		}
+	}()
+	f := reflect.ValueOf(ch).Elem().FieldByName("sigPool")
+	if !f.IsValid() || f.Kind() != reflect.Pointer {
+		return nil
+	}
+	v := reflect.NewAt(f.Type(), unsafe.Pointer(f.UnsafeAddr())).Elem().Interface()
+	p, _ = v.(*lnwallet.SigPool)
+	return p
+}
